@@ -197,6 +197,47 @@ def run_benign(verbose=True):
     return out
 
 
+def _variant_one(args):
+    prop, v, files = args
+    import main as M
+    M.load_rules()
+    FX = facts.load([os.environ['VERIF_FIXTURE_FACTS']])
+    P = facts.load(files)
+    c = core.Ctx(prop, P, 'quick', 'default', FX)
+    c.run()
+    keys = [o.key for o in c.failed()]
+    if v.get('benign'):
+        status = 'silent-ok' if not keys else 'FALSE-ALARM'
+    else:
+        hit = [k for k in keys if k.startswith(v['expect'])]
+        status = 'caught' if hit else ('caught-elsewhere' if keys else 'MISSED')
+    return {'variant': v['name'], 'status': status, 'expected_rule': v.get('expect'), 'fired': keys[:6], 'desc': v.get('desc', '')}
+
+
+def run_variants_parallel(prop, variants, jobs=12):
+    """the variant / seed battery of one property: facts that are not cached yet are produced one after the other (one
+    shared scratch build directory), the rules are then evaluated in `jobs` processes"""
+    import multiprocessing
+    miss = uncached(variants)
+    res = []
+    if miss:
+        res += run_variants(prop, miss, verbose=False)
+    done = {r['variant'] for r in res}
+    os.environ['VERIF_FIXTURE_FACTS'] = extract.extract_fixture()
+    state = _repo_state()
+    tasks = []
+    for v in variants:
+        if v['name'] in done:
+            continue
+        files = sorted(glob.glob(os.path.join(VCACHE, _variant_key(v, state), '*.jsonl')))
+        if files:
+            tasks.append((prop, v, files))
+    if tasks:
+        with multiprocessing.Pool(jobs) as pool:
+            res += pool.map(_variant_one, tasks)
+    return res
+
+
 def _benign_one(args):
     prop, name, files, allowed = args
     import main as M
